@@ -84,7 +84,7 @@ def run(tier, seed):
     rep.cov["predictions_judged"] = sum(len(tr["q"]) for _, tr in items)
     # a classifier is a classifier however it came about: the one learn() leaves (the best of several fits, restored) predicts by the same
     # rule - over the samples, costs and labels it holds
-    lt = S.learn_traces(random.Random(seed + 4545), 240 if tier == "thorough" else 50, other_queries=True)
+    lt = S.learn_traces(random.Random(seed + 4545), 240 if tier == "thorough" else 60, other_queries=True, iters_choices=(4, 6, 10), seps=(0.2, 0.4, 0.7), sizes=((10, 18), (12, 24)))      # (overlapping classes, many rounds: the best fit is rarely the last)
     if lt:
         S.judge(rep, lt, "c03learn", PIDS, want_m=False)
         rep.cov["classifiers_left_by_learn_judged"] = len(lt)
